@@ -30,6 +30,10 @@ func alphabetDomain(code int) *Domain {
 		d.bits[0] &^= 1 << '\r'
 	case 5: // ASCII without NUL
 		set(1, 0x7f)
+	case 6: // LINE plus CR
+		set(0x20, 0x7e)
+		set('\n', '\n')
+		set('\r', '\r')
 	default:
 		panic(engineErr{kind: "HARNESS", msg: fmt.Sprintf("unknown alphabet code %d", code)})
 	}
